@@ -111,13 +111,9 @@ example : WF exampleMsg := by
 
 /-- the two encoders agree on where every section goes: the regenerated offsets of
     `EncodeSlicePointer` are the prefix sums of the `WriteTo` layout -/
-theorem layout_total (spL smL metaL payL : Nat) :
-    enc_totalL spL smL metaL payL = (4 + spL) + (4 + smL) + (4 + metaL) + (4 + payL) := by
-  unfold enc_totalL; omega
-
 theorem layout_bufLen (spL smL metaL payL : Nat) :
     encBufLen spL smL metaL payL = 12 + 4 + ((4 + spL) + (4 + smL) + (4 + metaL) + (4 + payL)) := by
-  unfold encBufLen enc_l enc_totalL; omega
+  unfold encBufLen; omega
 
 /-- the canonical write list: header at 0, total at 12, then each section's length and bytes
     back to back -/
@@ -135,8 +131,8 @@ def canonBlits (spL smL metaL payL : Nat) : List Blit := [
 
 theorem layout_blits (spL smL metaL payL : Nat) :
     encBlits spL smL metaL payL = canonBlits spL smL metaL payL := by
-  unfold encBlits canonBlits enc_totalL enc_metaStart enc_payLoadStart
-  simp only [enc_metaStart, List.cons.injEq, Blit.u32.injEq, Blit.copy.injEq, Option.some.injEq, and_true, true_and]
+  unfold encBlits canonBlits
+  simp only [List.cons.injEq, Blit.u32.injEq, Blit.copy.injEq, Option.some.injEq, and_true, true_and]
   omega
 
 /-- **The pooled-buffer encoder writes exactly the streaming frame.**  Performing the
